@@ -22,10 +22,6 @@ func c13Config() *config.Config {
 	return cfg
 }
 
-// c13Known names the recorded finding (and whether the current program lies in its region) for the next c13Check
-var c13Known string
-var c13InRegion bool
-
 func c13StringData() {
 	df.VerifFlowStringData = verifPick("string-data", 0, 1) == 1
 }
@@ -62,8 +58,7 @@ func c13Check(w *df.VerifFlowWorld) {
 		verifReach("escape-reported")
 	}
 	_ = err
-	verifAssertKnown("observable-flow-through-shared-memory-is-reported-as-flow-or-escape", c13Known, c13InRegion, flow || escape)
-	c13Known, c13InRegion = "", false
+	verifAssert("observable-flow-through-shared-memory-is-reported-as-flow-or-escape", flow || escape)
 }
 
 func Harness_C13_shared_cell() {
@@ -85,12 +80,6 @@ func Harness_C13_data_through_transport() {
 	if verifTier() > 0 {
 		share = verifPick("share", 0, 4)
 	}
-	// non-pointer data bound by value in a closure that is called directly makes the escape analysis panic
-	// (pending confirmation, DESIGN §5 D18): outside the claim until triaged
-	verifAssume(!(df.VerifFlowStringData && df.VerifByValueClosure(t)))
-	// non-pointer data that comes back from a callee and is then stored into already-shared memory: recorded
-	// finding KF-C13-escape-after-call
-	c13Known, c13InRegion = "KF-C13-escape-after-call", df.VerifFlowStringData && first && df.VerifTransportThroughCall(t)
 	w := df.VerifBuildFlowProgram(share, first, t, variant, 0, -1, 0)
 	c13Check(w)
 }
